@@ -207,17 +207,26 @@ def compare(ev, exp, defined=None):
     return []
 
 
-def signature(ev, plan, clause, k=0):
+def signature(ev, plan, clause, k=0, failing=()):
     """Family-level signature (no literal numbers); a raised exception is identified by call site and error class,
-    a wrong value additionally by value type / function class / point-passing form."""
+    a wrong value additionally by value type / function class / point-passing form.  `failing`: indices of all failing
+    calls of a behaviour (history events)."""
     conc = plan['conc']
     if plan['k'] == 'hist':
         calls = ev['calls']
         c = calls[k - 1] if 1 <= k <= len(calls) else {'kind': '-', 'dt': '-', 'err': ''}
-        first = next((x for x in calls[:max(k - 1, 0)] if x['kind'] != 'mutate'), None)
-        sig = {'api': 'history', 'conv': conc['conv'], 'func': plan['fnclass'], 'call': c['kind'], 'dtype': c['dt'],
-               'first': 'self' if first is None else first['kind'] + '/' + first['dt'],
-               'mutated': 'yes' if any(x['kind'] == 'mutate' for x in calls[:max(k - 1, 0)]) else 'no', 'clause': clause}
+        real = [j for j, x in enumerate(calls, start=1) if x['kind'] != 'mutate']
+        sig = {'api': 'history', 'conv': conc['conv'], 'func': plan['fnclass'], 'clause': clause,
+               'mutated': 'yes' if any(x['kind'] == 'mutate' for x in calls[:max(k - 1, 0)]) else 'no'}
+        # independent of the history: every earlier call into a non-integer value type is wrong as well
+        # (calls into an integer type are compared at integer-valued points only and do not discriminate)
+        if all(j in failing for j in real if j <= k and calls[j - 1]['dt'] != 'int'):
+            sig['history'] = 'independent'
+        else:
+            first = calls[real[0] - 1] if real and real[0] < k else None
+            sig['history'] = 'dependent'
+            sig['first'] = '-' if first is None else first['kind'] + '/' + first['dt']
+            sig['dtype'] = c['dt']
         if clause == 'raised':
             sig['error'] = c['err']
         return sig
@@ -232,13 +241,16 @@ def signature(ev, plan, clause, k=0):
         return sig
     sch = ev.get('schemes') or plan.get('schemes')
     scl = 'nearest' if all(s == 'nearest' for s in sch) else ('linear' if all(s == 'linear' for s in sch) else 'mixed')
-    sig = {'api': conc['which'] if plan['k'] == 'interp' else conc.get('api', 'Resampling') + ('/out' if conc.get('inplace') else ''),
-           'dtype': dtc, 'scheme': scl, 'ndim': nd, 'clause': clause}
+    api = conc['which'] if plan['k'] == 'interp' else conc.get('api', 'Resampling') + ('/out' if conc.get('inplace') else '')
     if clause == 'raised':
-        sig['error'] = ev['err']
+        sig = {'api': api, 'dtype': dtc if dtc in ('str', 'str-wide', 'int') else 'numeric', 'ndim': nd, 'clause': clause, 'error': ev['err']}
         if plan['k'] == 'interp':
             sig['form'] = 'mesh_1pt' if conc['form'] == 'mesh_1pt' else 'any'
-    elif plan['k'] == 'interp':
+        if dtc in ('str', 'str-wide', 'int'):
+            sig['scheme'] = scl
+        return sig
+    sig = {'api': api, 'dtype': dtc, 'scheme': scl, 'ndim': nd, 'clause': clause}
+    if plan['k'] == 'interp':
         sig['form'] = conc['form']
     return sig
 
@@ -342,8 +354,7 @@ def fn_class(fn):
 def plans_hist(case, rot, thorough):
     obj, hist = case['obj'], case['hist']
     variants = [(r, p) for r in (False, True) for p in ('mesh', 'array')]
-    if not thorough:
-        variants = [variants[rot % 4]]
+    variants = [variants[rot % 4]]        # one rotating (wrapper reuse, point-passing) variant per behaviour
     return [({'k': 'hist', 'obj': obj, 'hist': hist, 'fnclass': fn_class(obj['fn']), 'D': 1,
               'conc': {'conv': obj['conv'], 'reuse_sf': r, 'points': p}}, hist, None) for r, p in variants]
 
@@ -624,7 +635,7 @@ def run(ctx):
 
     def go(j):
         mod = 'MC_SampleHist.tla' if 'hist' in j[0] else 'MC_Interp.tla'
-        return j[0], run_tlc(mod, j[1], work, env=j[2], workers=j[3], timeout=3000)
+        return j[0], run_tlc(mod, j[1], work, env=j[2], workers=j[3], timeout=3000, heap='4g')
     with ThreadPoolExecutor(max_workers=8) as ex:
         results = list(ex.map(go, jobs))
     for name, res in results:
@@ -672,68 +683,79 @@ def run(ctx):
         for i in range(0, len(cases), 400):
             tasks.append(('hist', cases[i:i + 400], ctx.seed + i // 400, not quick))
     rnd = random.Random(ctx.seed * 7919 + 15)
-    rplans = beyond_plans() + random_plans(rnd, 2500 if quick else 40000)
-    with mp.get_context('fork').Pool(14) as pool:
-        ares = pool.map_async(replay_task, tasks, chunksize=1)
-        rres = pool.map_async(random_task, [rplans[i:i + 250] for i in range(0, len(rplans), 250)], chunksize=1)
-        chunks = ares.get()
-        rchunks = rres.get()
-    records = [r for ch in chunks for r in ch]
-    nreplayed = len(records)
-    records += [r for ch in rchunks for r in ch]
-    ctx.extra['exported_states'] = nlines
-    ctx.extra['replayed_calls'] = nreplayed
-    ctx.extra['random_driver_calls'] = len(records) - nreplayed
-
+    rplans = beyond_plans() + random_plans(rnd, 2500 if quick else 25000)
+    # Results are STREAMED: every event is written to its trace chunk as soon as it arrives, only a light record
+    # (plan, python verdict, position in the chunk) stays in memory; events are re-read from the chunk when TLC rejects them.
+    light = []                 # id -> (plan, cl_is_bad or None, chunk index, line in chunk)
+    paths, cur_f, cur_n, cur_w = [], None, 0, 0
     points = 0
     fam_counts = {}
-    for i, (ev, plan, cl, nontriv) in enumerate(records):
+    sampled = set()
+    nreplayed = 0
+
+    def take(rec, from_export):
+        nonlocal cur_f, cur_n, cur_w, points
+        ev, plan, cl, nontriv = rec
+        i = len(light)
         ev['id'] = i
-        points += weight_of(ev)
+        w = weight_of(ev)
+        points += w
+        if cur_f is None or cur_w + w > 12000 or cur_n >= 2500:
+            if cur_f is not None:
+                cur_f.close()
+            paths.append(os.path.join(work, 'trace_%d.ndjson' % len(paths)))
+            cur_f, cur_n, cur_w = open(paths[-1], 'w'), 0, 0
+        cur_f.write(json.dumps(clean(ev)) + '\n')
+        cur_n += 1
+        cur_w += w
+        light.append((plan, None if cl is None else bool(cl), len(paths) - 1, cur_n))
         ctx.count([{k: v for k, v in clean(ev).items() if k not in ('obs', 'err', 'id')} if ev['kind'] != 'history' else
                    [ev['fn'], ev['cvs'], [(c['kind'], c['dt']) for c in ev['calls']]], plan['conc']], nontriv)
         seen = set()
+        failing = [it[1] for it in (cl or []) if isinstance(it, tuple)]
         for item in (cl or []):
             clause, kk = item if isinstance(item, tuple) else (item, 0)
-            sig = signature(ev, plan, clause, kk)
+            sig = signature(ev, plan, clause, kk, failing)
             if dumps(sig, sort_keys=True) in seen:
                 continue
             seen.add(dumps(sig, sort_keys=True))
             report(ctx, fam_counts, sig,
-                          {'stage': 'replay', 'event': clean(ev), 'plan': plan, 'errmsg': ev.get('_errmsg', ''),
-                           'expected_by_spec': ev.get('_expected')})
+                   {'stage': 'replay', 'event': clean(ev), 'plan': plan, 'errmsg': ev.get('_errmsg', ''),
+                    'expected_by_spec': ev.get('_expected')})
+        if (ev['kind'] not in sampled and not cl and nontriv and not ev['err'] and i % 11 == 0 and ev['kind'] != 'history'
+                and len(dumps(ev)) < 3000):
+            sampled.add(ev['kind'])
+            ctx.sample({'event': clean(ev), 'concretisation': plan['conc']})
+
+    with mp.get_context('fork').Pool(14) as pool:
+        rit = pool.imap(random_task, [rplans[i:i + 250] for i in range(0, len(rplans), 250)], chunksize=1)
+        for ch in pool.imap(replay_task, tasks, chunksize=1):
+            for rec in ch:
+                take(rec, True)
+        nreplayed = len(light)
+        for ch in rit:
+            for rec in ch:
+                take(rec, False)
+    if cur_f is not None:
+        cur_f.close()
+    ctx.extra['exported_states'] = nlines
+    ctx.extra['replayed_calls'] = nreplayed
+    ctx.extra['random_driver_calls'] = len(light) - nreplayed
     ctx.extra['values_compared'] = points
-    for kind in ('sample', 'interp', 'nearest_idx'):
-        for ev, plan, cl, nontriv in records:
-            if ev['kind'] == kind and not cl and nontriv and not ev['err'] and ev['id'] % 11 == 0 and len(dumps(ev)) < 3000:
-                ctx.sample({'event': clean(ev), 'concretisation': plan['conc']})
-                break
-    ctx.traces += len(records)
+    ctx.traces += len(light)
 
     lap('replay_and_random_driver')
 
     # ---- 3. TLC validates every recorded event ----
-    files = []
-    cur, weight = [], 0
-    for rec in records:
-        w = weight_of(rec[0])
-        if cur and (weight + w > 12000 or len(cur) >= 2500):
-            files.append(cur)
-            cur, weight = [], 0
-        cur.append(rec)
-        weight += w
-    if cur:
-        files.append(cur)
-    paths = []
-    for ci, recs in enumerate(files):
-        p = os.path.join(work, 'trace_%d.ndjson' % ci)
-        with open(p, 'w') as f:
-            for ev, plan, cl, nontriv in recs:
-                f.write(json.dumps(clean(ev)) + '\n')
-        paths.append(p)
+    def load_event(ci, line):
+        with open(paths[ci]) as f:
+            for n, l in enumerate(f, start=1):
+                if n == line:
+                    return json.loads(l)
+        raise MachineryError('event not found in its trace chunk')
 
     def val(p):
-        return p, run_tlc('Trace_Interp.tla', 'Trace_Interp.cfg', work, env={'TRACE_FILE': p}, workers=1, timeout=3000)
+        return p, run_tlc('Trace_Interp.tla', 'Trace_Interp.cfg', work, env={'TRACE_FILE': p}, workers=1, timeout=3000, heap='3g')
     with ThreadPoolExecutor(max_workers=14) as ex:
         vres = list(ex.map(val, paths))
     nfail = 0
@@ -743,7 +765,10 @@ def run(ctx):
         for _line, eid, ctext in parse_fails(res.output):
             nfail += 1
             tlc_bad.add(eid)
-            ev, plan, cl, nontriv = records[eid]
+            plan, clb, ci, line = light[eid]
+            ev = load_event(ci, line)
+            if ev['id'] != eid:
+                raise MachineryError('trace chunk bookkeeping broken')
             pairs = re.findall(r'<<\s*"([\w-]+)"\s*,\s*(\d+)\s*>>', ctext)
             if not pairs:
                 raise MachineryError('unparsable FAIL clauses from TLC: %s' % ctext[:200])
@@ -752,29 +777,33 @@ def run(ctx):
             else:
                 names = sorted(set((c, 0) for c, k in pairs))
             if any(c in ('precondition', 'unknown-kind') for c, _ in names):
-                raise MachineryError('driver produced an inadmissible event: %s' % dumps(clean(ev))[:300])
+                raise MachineryError('driver produced an inadmissible event: %s' % dumps(ev)[:300])
             seen = set()
             for clause, kk in names:
-                sig = signature(ev, plan, clause, kk)
+                sig = signature(ev, plan, clause, kk, [k2 for _, k2 in names])
                 if dumps(sig, sort_keys=True) in seen:
                     continue
                 seen.add(dumps(sig, sort_keys=True))
                 report(ctx, fam_counts, sig,
-                              {'stage': 'trace', 'event': clean(ev), 'plan': plan, 'errmsg': ev.get('_errmsg', ''),
-                               'tlc_clauses': ctext[:600]})
+                       {'stage': 'trace', 'event': ev, 'plan': plan, 'errmsg': '', 'tlc_clauses': ctext[:600]})
     # both directions judge the replayed exported cases with the same layer-A operators: they must agree event by event
-    for i, (ev, plan, cl, nontriv) in enumerate(records):
-        if cl is not None and bool(cl) != (i in tlc_bad):
-            raise MachineryError('replay comparison and TLC trace validation disagree on event %d: %s' % (i, dumps(clean(ev))[:300]))
+    for i, (plan, clb, ci, line) in enumerate(light):
+        if clb is not None and clb != (i in tlc_bad):
+            raise MachineryError('replay comparison and TLC trace validation disagree on event %d: %s' % (i, dumps(load_event(ci, line))[:300]))
     lap('tlc_trace_validation')
     ctx.extra['phase_s'] = phase
     ctx.extra['violating_cases_by_family'] = fam_counts
-    ctx.extra['trace_events_validated_by_tlc'] = len(records)
+    ctx.extra['trace_events_validated_by_tlc'] = len(light)
     ctx.extra['trace_events_rejected_by_tlc'] = nfail
     ctx.extra['unsupported_not_claimed'] = ['per_axis_interpolator / linear_interpolator on integer data raise UFuncTypeError '
                                             '(NumPy refuses float->int in-place accumulation)']
+    ctx.extra['history_bounds'] = ('SampleHist: 15 function objects (2 decorated conventions x fine / 2-d / int-first functions; native, dual, '
+                                   'in-place, object; view-returning callables) x every behaviour of <= 3 steps over {in-place, out-of-place, '
+                                   'element()} x {int, f32, f64, c64, c128} + overwrite-previous-result; quick: length 3 for the decorated core '
+                                   'and the view objects (3 value types), length 2 otherwise, replay of the length-3 behaviours whose middle '
+                                   'step is an in-place call or an overwrite; thorough: everything at length 3')
     ctx.extra['bounds'] = ('TLC: 8 one-d grids of 2-4 (non-)uniform dyadic nodes x quarter lattice from min-1 to max+1 (+ midpoints, nodes); '
-                           '2-d: 9 grid pairs x 4 scheme mixtures x 9x9 points; 3-d: 8 grid triples x 8 mixtures x 4^3 (thorough 5^3) points; '
+                           '2-d: 9 grid pairs x 4 scheme mixtures x 7x7 (thorough 9x9) points; 3-d: 8 grid triples x 8 mixtures x 4^3 (thorough 5^3) points; '
                            '8 abstract functions on 29 grids; 5 uniform discretisations of [0,1] (and 3 two-d ones) for Resampling / '
                            'linear_deform with 5 displacement patterns. Random driver: 1-3 d, 2-6 random dyadic nodes per axis, random data, '
                            'points on a 1/16 lattice incl. ties and the zero-extension zone, random integer polynomials of degree <= 2')
